@@ -118,6 +118,9 @@ def run(out, tier, seed):
     replay_cases(out, cases, seed)
     # second half: which identifiers the analysis highlights (GleamGen / Typing programs) and the whole pipeline
     main, _ = scope_common.programs(out, tier, seed)
+    # highlighting asks for the full list plus three range requests per token: the thorough tier takes every k-th of the
+    # (more than a million) programs
+    main = scope_common.subsample(main, 150000, "c19-programs")
     mism, summary, _, _ = scope_common.observe(main, seed, "C19-hl", hl=True)
     for r in mism:
         if r["prop"] == "C19":
